@@ -23,7 +23,7 @@ EXPLANATION = (
     "(R12.1) all functions reachable from pandapipes.pipeflow in the resolved call graph (component hooks dispatched "
     "to every concrete class) are analysed with an alias/taint analysis: values that may share memory with user data "
     "(net[<table>] and its column/.values/basic-slice views, net.fluid / get_fluid(net), net.std_types, "
-    "net.user_pf_options) are tracked through assignments; copying operations (arithmetic, np.array, .copy(), .astype, "
+    "net.user_pf_options, also when read through net.get(<key>)) are tracked through assignments; copying operations (arithmetic, np.array, .copy(), .astype, "
     "boolean/fancy indexing, np.repeat, nan_to_num without copy=False) clear the alias; sinks are subscript/attribute "
     "stores, augmented assignments, in-place methods, numpy out=/copy=False, inplace=True and calls whose callee's "
     "bottom-up mutation summary writes the corresponding parameter. Independently every component hook is summarised "
